@@ -221,6 +221,12 @@ func (a *Adversary) sendSome(from string, nodes []*Node, raw *interfaces.Consens
 
 func (a *Adversary) mkRefMsg(env ref.Env, typ ref.MT, signer string, inst, h, v uint64, hash []byte, blk *spi.Blk) *interfaces.ConsensusRawMessage {
 	hdr := &ref.Ref{Type: typ, Inst: inst, H: h, V: v, Hash: hash}
+	if a.own[signer] && a.r.Intn(10) == 0 {
+		// the member's own, genuinely signed header in a non-canonical encoding (garbage in the alignment bytes, or bytes after
+		// the last field): every field reads the same, the signature is over these bytes
+		hdr.Pad = 1 + a.r.Intn(2)
+		a.w.Mon.Stats["adv genuinely signed headers in a non-canonical encoding"]++
+	}
 	sg := ref.Sig{Id: signer, Sig: a.sign(signer, h, hdr.Bytes())}
 	var share []byte
 	if env == ref.EnvC {
